@@ -8,7 +8,7 @@
    3. an actor whose commit-point write raised is never acknowledged (XJ, induction over the schedule). *)
 From Coq Require Import ZArith List Bool Arith Lia.
 Require Import DS.Model.CommitBase DS.Gen.GenCommit DS.Model.Commit DS.Model.FlipFault
-               DS.Proofs.CommitGenProofs DS.Proofs.CommitProofs.
+               DS.Proofs.CommitGenProofs DS.Proofs.CommitProofs DS.Proofs.PtrFallbackProofs.
 Import ListNotations.
 
 (* ------------------------------------------------------------------ 1. the regenerated reaction *)
@@ -28,58 +28,183 @@ Lemma flip_error_plain last :
 Proof. destruct last; split; reflexivity. Qed.
 
 (* ------------------------------------------------------------------ 2. one extended step = at most one machine step *)
-Lemma xstep_world c atomic X x X' : cas c = true -> xstep c atomic X x = Some X' ->
+(* what the regenerated refusal arm does: it reads the pointer back, and the helper's verdict is "the pointer's content is our
+   file name" (re-checked on every run against the definitions just read off the source; both fail on a source that calls a
+   refused write a conflict without looking) *)
+Lemma refused_reads_back : gen_refused_reads_back = true.
+Proof. reflexivity. Qed.
+Lemma write_landed_spec n : gen_write_landed n = n.
+Proof. reflexivity. Qed.
+Lemma refusal_read_back_regenerated : gen_refused_reads_back = true /\ (forall names_ours, gen_write_landed names_ours = names_ours).
+Proof. split; [exact refused_reads_back | exact write_landed_spec]. Qed.
+
+(* prompt machine: at most one read-back is pending; its actor has flipped, the pointer still names its file, no exception
+   is propagating in it *)
+Definition XK (X : xworld) : Prop :=
+  (x_npending X = 0%nat /\ forall a, x_rb X a = false)
+  \/ (x_npending X = 1%nat /\ exists a, x_rb X a = true /\ (forall b, x_rb X b = true -> b = a)
+        /\ a_pc (w_actors (xw X) a) = PFlipped /\ w_ptr (xw X) = a_new (w_actors (xw X) a) /\ x_err X a = None).
+
+Lemma set_rb_same a v f : set_rb a v f a = v.
+Proof. unfold set_rb. rewrite Nat.eqb_refl. reflexivity. Qed.
+Lemma set_rb_other a b v f : b <> a -> set_rb a v f b = f b.
+Proof. intro NE. unfold set_rb. destruct (Nat.eqb_spec b a); [contradiction|reflexivity]. Qed.
+Lemma set_err_same a v f : set_err a v f a = v.
+Proof. unfold set_err. rewrite Nat.eqb_refl. reflexivity. Qed.
+Lemma set_err_other a b v f : b <> a -> set_err a v f b = f b.
+Proof. intro NE. unfold set_err. destruct (Nat.eqb_spec b a); [contradiction|reflexivity]. Qed.
+
+Lemma XK_pending X a : XK X -> x_rb X a = true ->
+  x_npending X = 1%nat /\ (forall b, x_rb X b = true -> b = a) /\ a_pc (w_actors (xw X) a) = PFlipped
+  /\ w_ptr (xw X) = a_new (w_actors (xw X) a) /\ x_err X a = None.
+Proof.
+  intros [[_ F]|[N [a' [RB [U [P [W E]]]]]]] R; [rewrite F in R; discriminate|].
+  assert (a = a') by (apply U; exact R). subst a'. auto.
+Qed.
+
+Lemma readback_lands X a : XK X -> x_rb X a = true ->
+  gen_refused_reads_back && gen_write_landed (names_ours (xw X) (w_actors (xw X) a)) = true.
+Proof.
+  intros K RB. destruct (XK_pending X a K RB) as [_ [_ [_ [W _]]]]. rewrite refused_reads_back, write_landed_spec. simpl.
+  unfold names_ours. apply Nat.eqb_eq. exact W.
+Qed.
+
+Lemma xstep_readback c atomic X a X' : XK X -> xstep_p true c atomic X (XReadBack a) = Some X' ->
+  xw X' = xw X /\ x_err X' = x_err X /\ x_failed X' = x_failed X /\ x_misreported X' = x_misreported X
+  /\ x_rb X' = set_rb a false (x_rb X) /\ x_rb X a = true /\ x_npending X' = pred (x_npending X).
+Proof.
+  intros K H. unfold xstep_p in H. cbv beta iota zeta in H. destruct (x_rb X a) eqn:RB; [|discriminate].
+  rewrite (readback_lands X a K RB) in H. inversion H; subst X'; simpl. repeat split; reflexivity.
+Qed.
+
+Lemma xstep_world c atomic X x X' : cas c = true -> XK X -> xstep_p true c atomic X x = Some X' ->
   xw X' = xw X \/ exists e, step c (xw X) e = Some (xw X').
 Proof.
-  intros CAS H. destruct x as [e|a applied|a]; simpl in H.
-  - destruct (x_err X (e_actor e)); [discriminate|].
+  intros CAS K H. destruct x as [e|a applied|a|a|a].
+  - simpl in H. destruct (x_err X (e_actor e)); [discriminate|]. destruct (x_rb X (e_actor e)); [discriminate|].
+    destruct (negb (is_flip_true (e_kind e)) || may_land true X); [|discriminate].
     destruct (step c (xw X) e) as [w'|] eqn:St; [|discriminate]. inversion H; subst X'; simpl. right. exists e. exact St.
-  - destruct (x_err X a); [discriminate|]. destruct (a_pc (w_actors (xw X) a)); try discriminate.
+  - simpl in H. destruct (x_err X a); [discriminate|]. destruct (x_rb X a); [discriminate|].
+    destruct (a_pc (w_actors (xw X) a)); try discriminate.
     destruct applied.
-    + destruct (negb (cas c) && atomic); [discriminate|].
+    + match type of H with (if ?b then _ else _) = _ => destruct b; [discriminate|] end.
       destruct (step c (xw X) (ev a (EFlip true))) as [w'|] eqn:St; [|discriminate].
       inversion H; subst X'; simpl. right. eexists. exact St.
     + inversion H; subst X'; simpl. left. reflexivity.
-  - destruct (x_err X a); [|discriminate]. rewrite CAS, flip_error_raises in H.
+  - simpl in H. destruct (x_err X a); [|discriminate]. rewrite CAS, flip_error_raises in H.
     destruct (step c (xw X) (ev a EAbort)) as [w'|] eqn:St; [|discriminate].
     inversion H; subst X'; simpl. right. eexists. exact St.
+  - simpl in H. destruct (x_err X a); [discriminate|]. destruct (x_rb X a); [discriminate|].
+    destruct (a_pc (w_actors (xw X) a)); try discriminate.
+    match type of H with (if ?b then _ else _) = _ => destruct b; [|discriminate] end.
+    destruct (step c (xw X) (ev a (EFlip true))) as [w'|] eqn:St; [|discriminate].
+    inversion H; subst X'; simpl. right. eexists. exact St.
+  - destruct (xstep_readback _ _ _ _ _ K H) as [E _]. left. exact E.
 Qed.
 
-Lemma xrun_cons c atomic X x xs : xrun c atomic X (x :: xs) = xrun c atomic (xstep_skip c atomic X x) xs.
+Lemma xrun_p_cons p c atomic X x xs : xrun_p p c atomic X (x :: xs) = xrun_p p c atomic (xstep_skip_p p c atomic X x) xs.
 Proof. reflexivity. Qed.
 
-Lemma xstep_inv c atomic X x X' : cas c = true -> Inv c (xw X) -> repl_ok (xw X) -> xstep c atomic X x = Some X' ->
+Lemma step_flip_true c w a w' : step c w (ev a (EFlip true)) = Some w' -> a_pc (w_actors w a) = PFenced ->
+  a_pc (w_actors w' a) = PFlipped /\ (forall b, b <> a -> w_actors w' b = w_actors w b)
+  /\ a_new (w_actors w' a) = a_new (w_actors w a) /\ w_ptr w' = a_new (w_actors w a).
+Proof.
+  intros H PC. unfold step in H. simpl in H. rewrite PC in H.
+  match type of H with (if ?b then _ else _) = _ => destruct b; [|discriminate] end.
+  inversion H; subst w'; simpl. rewrite upd_same. split; [reflexivity|]. split.
+  - intros b NE. rewrite upd_other by exact NE. reflexivity.
+  - split; reflexivity.
+Qed.
+
+(* a step of another actor that is not a successful flip leaves the pending actor and the pointer alone *)
+Lemma pending_frame c w e w' a : step c w e = Some w' -> e_actor e <> a -> is_flip_true (e_kind e) = false ->
+  w_actors w' a = w_actors w a /\ w_ptr w' = w_ptr w.
+Proof.
+  intros St NE NF. destruct (step_frame _ _ _ _ St) as [Oth [_ Ptr]]. cbv zeta in *. split.
+  - apply Oth. intro E. apply NE. symmetry. exact E.
+  - apply Ptr. intro E. rewrite E in NF. discriminate.
+Qed.
+
+Lemma xstep_XK c atomic X x X' : cas c = true -> XK X -> xstep_p true c atomic X x = Some X' -> XK X'.
+Proof.
+  intros CAS K H. destruct x as [e|a applied|a|a|a].
+  - simpl in H. destruct (x_err X (e_actor e)) eqn:EE; [discriminate|]. destruct (x_rb X (e_actor e)) eqn:RB0; [discriminate|].
+    destruct (negb (is_flip_true (e_kind e)) || may_land true X) eqn:G; [|discriminate].
+    destruct (step c (xw X) e) as [w'|] eqn:St; [|discriminate]. inversion H; subst X'; clear H.
+    destruct K as [[N F]|[N [a [RB [U [P [W E]]]]]]]; [left; simpl; auto|]. right; simpl. split; [exact N|]. exists a.
+    assert (NE : e_actor e <> a) by (intro; subst; congruence).
+    assert (NF : is_flip_true (e_kind e) = false).
+    { unfold may_land in G. rewrite N in G. simpl in G. rewrite orb_false_r in G. apply negb_true_iff in G. exact G. }
+    destruct (pending_frame _ _ _ _ a St NE NF) as [SA SP]. rewrite SA, SP. auto.
+  - simpl in H. destruct (x_err X a) eqn:EE; [discriminate|]. destruct (x_rb X a) eqn:RB0; [discriminate|].
+    destruct (a_pc (w_actors (xw X) a)) eqn:PC; try discriminate.
+    destruct applied.
+    + match type of H with (if ?b then _ else _) = _ => destruct b eqn:G; [discriminate|] end.
+      apply orb_false_iff in G. destruct G as [_ G]. apply negb_false_iff in G.
+      destruct (step c (xw X) (ev a (EFlip true))) as [w'|] eqn:St; [|discriminate].
+      inversion H; subst X'; clear H.
+      destruct K as [[N F]|[N _]]; [left; simpl; auto|]. unfold may_land in G. rewrite N in G. simpl in G. discriminate.
+    + inversion H; subst X'; clear H.
+      destruct K as [[N F]|[N [a' [RB [U [P [W E]]]]]]]; [left; simpl; auto|]. right; simpl. split; [exact N|]. exists a'.
+      assert (NE : a' <> a) by (intro; subst; congruence). rewrite set_err_other by exact NE. auto.
+  - simpl in H. destruct (x_err X a) as [ap|] eqn:EE; [|discriminate]. rewrite CAS, flip_error_raises in H.
+    destruct (step c (xw X) (ev a EAbort)) as [w'|] eqn:St; [|discriminate].
+    inversion H; subst X'; clear H.
+    destruct K as [[N F]|[N [a' [RB [U [P [W E]]]]]]]; [left; simpl; auto|]. right; simpl. split; [exact N|]. exists a'.
+    assert (NE : a <> a') by (intro; subst; congruence).
+    destruct (pending_frame _ _ _ _ a' St NE eq_refl) as [SA SP]. rewrite SA, SP.
+    rewrite set_err_other by (intro; apply NE; congruence). auto.
+  - simpl in H. destruct (x_err X a) eqn:EE; [discriminate|]. destruct (x_rb X a) eqn:RB0; [discriminate|].
+    destruct (a_pc (w_actors (xw X) a)) eqn:PC; try discriminate.
+    match type of H with (if ?b then _ else _) = _ => destruct b eqn:G; [|discriminate] end.
+    apply andb_true_iff in G. destruct G as [_ G].
+    destruct (step c (xw X) (ev a (EFlip true))) as [w'|] eqn:St; [|discriminate].
+    inversion H; subst X'; clear H. destruct (step_flip_true _ _ _ _ St PC) as [P [Oth [N W]]].
+    destruct K as [[N0 F]|[N0 _]]; [|unfold may_land in G; rewrite N0 in G; simpl in G; discriminate].
+    right; simpl. split; [rewrite N0; reflexivity|]. exists a. split; [apply set_rb_same|]. split.
+    + intros b RB. destruct (Nat.eq_dec b a) as [->|NE]; [reflexivity|]. rewrite set_rb_other in RB by exact NE. rewrite F in RB. discriminate.
+    + split; [exact P|]. split; [rewrite N; exact W | exact EE].
+  - destruct (xstep_readback _ _ _ _ _ K H) as [E1 [E2 [_ [_ [E5 [RB E7]]]]]].
+    destruct (XK_pending X a K RB) as [N [U _]]. left. split; [rewrite E7, N; reflexivity|].
+    intro b. rewrite E5. destruct (Nat.eq_dec b a) as [->|NE]; [apply set_rb_same|]. rewrite set_rb_other by exact NE.
+    destruct (x_rb X b) eqn:RBb; [exfalso; apply NE; apply U; exact RBb | reflexivity].
+Qed.
+
+Lemma xinit_XK w : XK (xinit w).
+Proof. left. split; reflexivity. Qed.
+
+Lemma xstep_inv c atomic X x X' : cas c = true -> XK X -> Inv c (xw X) -> repl_ok (xw X) -> xstep_p true c atomic X x = Some X' ->
   Inv c (xw X') /\ repl_ok (xw X').
 Proof.
-  intros CAS I R H. assert (Snd : sound c) by (left; exact CAS).
-  destruct (xstep_world _ _ _ _ _ CAS H) as [E|[e St]].
+  intros CAS K I R H. assert (Snd : sound c) by (left; exact CAS).
+  destruct (xstep_world _ _ _ _ _ CAS K H) as [E|[e St]].
   - rewrite E. auto.
   - split; [eapply step_inv; eauto | eapply step_repl; eauto].
 Qed.
 
-Lemma xrun_inv c atomic X xs : cas c = true -> Inv c (xw X) -> repl_ok (xw X) ->
-  Inv c (xw (xrun c atomic X xs)) /\ repl_ok (xw (xrun c atomic X xs)).
+Lemma xrun_inv c atomic X xs : cas c = true -> XK X -> Inv c (xw X) -> repl_ok (xw X) ->
+  XK (xrun_p true c atomic X xs) /\ Inv c (xw (xrun_p true c atomic X xs)) /\ repl_ok (xw (xrun_p true c atomic X xs)).
 Proof.
-  intro CAS. revert X. induction xs as [|x xs IH]; intros X I R; [simpl; auto|].
-  rewrite xrun_cons. unfold xstep_skip. destruct (xstep c atomic X x) as [X'|] eqn:St.
-  - destruct (xstep_inv _ _ _ _ _ CAS I R St). apply IH; auto.
+  intro CAS. revert X. induction xs as [|x xs IH]; intros X K I R; [simpl; auto|].
+  rewrite xrun_p_cons. unfold xstep_skip_p. destruct (xstep_p true c atomic X x) as [X'|] eqn:St.
+  - destruct (xstep_inv _ _ _ _ _ CAS K I R St). apply IH; auto. eapply xstep_XK; eauto.
   - apply IH; auto.
 Qed.
 
-Lemma xstep_file0 c atomic X x X' : cas c = true -> Inv c (xw X) -> xstep c atomic X x = Some X' ->
+Lemma xstep_file0 c atomic X x X' : cas c = true -> XK X -> Inv c (xw X) -> xstep_p true c atomic X x = Some X' ->
   nthf (w_files (xw X')) 0%nat = nthf (w_files (xw X)) 0%nat.
 Proof.
-  intros CAS I H. destruct (xstep_world _ _ _ _ _ CAS H) as [E|[e St]]; [rewrite E; reflexivity|].
+  intros CAS K I H. destruct (xstep_world _ _ _ _ _ CAS K H) as [E|[e St]]; [rewrite E; reflexivity|].
   destruct (files_zero c _ _ _ St) as [E|E]; auto.
   pose proof (I_files c _ I) as L. rewrite E in L. simpl in L. lia.
 Qed.
 
-Lemma xrun_file0 c atomic X xs : cas c = true -> Inv c (xw X) -> repl_ok (xw X) ->
-  nthf (w_files (xw (xrun c atomic X xs))) 0%nat = nthf (w_files (xw X)) 0%nat.
+Lemma xrun_file0 c atomic X xs : cas c = true -> XK X -> Inv c (xw X) -> repl_ok (xw X) ->
+  nthf (w_files (xw (xrun_p true c atomic X xs))) 0%nat = nthf (w_files (xw X)) 0%nat.
 Proof.
-  intro CAS. revert X. induction xs as [|x xs IH]; intros X I R; [reflexivity|].
-  rewrite xrun_cons. unfold xstep_skip. destruct (xstep c atomic X x) as [X'|] eqn:St; [|apply IH; auto].
-  destruct (xstep_inv _ _ _ _ _ CAS I R St). rewrite IH by auto. eapply xstep_file0; eauto.
+  intro CAS. revert X. induction xs as [|x xs IH]; intros X K I R; [reflexivity|].
+  rewrite xrun_p_cons. unfold xstep_skip_p. destruct (xstep_p true c atomic X x) as [X'|] eqn:St; [|apply IH; auto].
+  destruct (xstep_inv _ _ _ _ _ CAS K I R St). rewrite IH by (auto; eapply xstep_XK; eauto). eapply xstep_file0; eauto.
 Qed.
 
 (* ------------------------------------------------------------------ 3. a failed commit-point write is never acknowledged *)
@@ -89,20 +214,6 @@ Definition XJ (X : xworld) : Prop := forall a,
   (x_err X a = Some false -> a_pc (w_actors (xw X) a) = PFenced /\ In a (x_failed X))
   /\ (x_err X a = Some true -> a_pc (w_actors (xw X) a) = PFlipped /\ In a (x_failed X))
   /\ (x_err X a = None -> In a (x_failed X) -> failed_pc (a_pc (w_actors (xw X) a))).
-
-Lemma set_err_same a v f : set_err a v f a = v.
-Proof. unfold set_err. rewrite Nat.eqb_refl. reflexivity. Qed.
-Lemma set_err_other a b v f : b <> a -> set_err a v f b = f b.
-Proof. intro NE. unfold set_err. destruct (Nat.eqb_spec b a); [contradiction|reflexivity]. Qed.
-
-Lemma step_flip_true c w a w' : step c w (ev a (EFlip true)) = Some w' -> a_pc (w_actors w a) = PFenced ->
-  a_pc (w_actors w' a) = PFlipped /\ (forall b, b <> a -> w_actors w' b = w_actors w b).
-Proof.
-  intros H PC. unfold step in H. simpl in H. rewrite PC in H.
-  match type of H with (if ?b then _ else _) = _ => destruct b; [|discriminate] end.
-  inversion H; subst w'; simpl. split; [rewrite upd_same; reflexivity|].
-  intros b NE. rewrite upd_other by exact NE. reflexivity.
-Qed.
 
 Lemma step_abort c w a w' : step c w (ev a EAbort) = Some w' ->
   (a_pc (w_actors w a) = PFenced -> a_pc (w_actors w' a) = PDone Aborted)
@@ -124,33 +235,50 @@ Proof.
   - apply D. exact PC.
 Qed.
 
-Lemma xstep_XJ c atomic X x X' : cas c = true -> XJ X -> xstep c atomic X x = Some X' -> XJ X'.
+(* a flip by actor a (applied write): what XJ needs *)
+Lemma XJ_after_flip c X a w' (errs : aid -> option bool) (fl : list aid) rb np mis :
+  XJ X -> x_err X a = None -> a_pc (w_actors (xw X) a) = PFenced -> step c (xw X) (ev a (EFlip true)) = Some w' ->
+  (forall b, b <> a -> errs b = x_err X b) -> (forall b, In b (x_failed X) -> In b fl) -> (forall b, b <> a -> In b fl -> In b (x_failed X)) ->
+  (errs a = Some true /\ In a fl) \/ (errs a = None /\ fl = x_failed X) ->
+  XJ {| xw := w'; x_err := errs; x_failed := fl; x_rb := rb; x_npending := np; x_misreported := mis |}.
 Proof.
-  intros CAS J H. destruct x as [e|a applied|a]; simpl in H.
-  - destruct (x_err X (e_actor e)) eqn:EE; [discriminate|].
+  intros J EE PC St Oe Fsub Fsup Ha. destruct (step_flip_true _ _ _ _ St PC) as [P [Oth _]]. intro b; simpl.
+  destruct (Nat.eq_dec b a) as [->|NE].
+  - destruct Ha as [[E F]|[E F]]; rewrite E; repeat split; try discriminate; auto.
+    intros _ Fl. subst fl. destruct (J a) as [_ [_ J3]]. destruct (J3 EE Fl) as [Q|Q]; rewrite PC in Q; discriminate.
+  - rewrite (Oe b NE), (Oth b NE). destruct (J b) as [J1 [J2 J3]].
+    repeat split; intros; try (apply J1; assumption); try (apply J2; assumption);
+      try (apply Fsub; apply J1; assumption); try (apply Fsub; apply J2; assumption).
+    apply J3; auto.
+Qed.
+
+Lemma xstep_XJ c atomic X x X' : cas c = true -> XK X -> XJ X -> xstep_p true c atomic X x = Some X' -> XJ X'.
+Proof.
+  intros CAS K J H. destruct x as [e|a applied|a|a|a].
+  - simpl in H. destruct (x_err X (e_actor e)) eqn:EE; [discriminate|]. destruct (x_rb X (e_actor e)); [discriminate|].
+    destruct (negb (is_flip_true (e_kind e)) || may_land true X); [|discriminate].
     destruct (step c (xw X) e) as [w'|] eqn:St; [|discriminate]. inversion H; subst X'; clear H. intro b; simpl.
     destruct (Nat.eq_dec b (e_actor e)) as [->|NE].
     + rewrite EE. repeat split; try discriminate. intros _ F.
       destruct (J (e_actor e)) as [_ [_ J3]]. destruct (J3 EE F) as [P|P]; [left|right]; eapply step_done_stable; eauto.
     + destruct (step_cases _ _ _ _ St) as [Oth _]. cbv zeta in Oth. rewrite (Oth b NE). apply J.
-  - destruct (x_err X a) eqn:EE; [discriminate|]. destruct (a_pc (w_actors (xw X) a)) eqn:PC; try discriminate.
+  - simpl in H. destruct (x_err X a) eqn:EE; [discriminate|]. destruct (x_rb X a); [discriminate|].
+    destruct (a_pc (w_actors (xw X) a)) eqn:PC; try discriminate.
     destruct applied.
-    + destruct (negb (cas c) && atomic); [discriminate|].
+    + match type of H with (if ?b then _ else _) = _ => destruct b; [discriminate|] end.
       destruct (step c (xw X) (ev a (EFlip true))) as [w'|] eqn:St; [|discriminate].
-      inversion H; subst X'; clear H. destruct (step_flip_true _ _ _ _ St PC) as [P Oth]. intro b; simpl.
-      destruct (Nat.eq_dec b a) as [->|NE].
-      * rewrite set_err_same. repeat split; try discriminate; auto.
-      * rewrite set_err_other by exact NE. rewrite (Oth b NE). destruct (J b) as [J1 [J2 J3]].
-        repeat split; intros; try (apply J1; assumption); try (apply J2; assumption); try (right; apply J1; assumption);
-          try (right; apply J2; assumption).
-        apply J3; auto. match goal with F : _ \/ _ |- _ => destruct F as [F|F]; [congruence|exact F] end.
+      inversion H; subst X'; clear H. eapply XJ_after_flip; eauto.
+      * intros b NE. apply set_err_other. exact NE.
+      * intros b F. right. exact F.
+      * intros b NE [F|F]; [congruence | exact F].
+      * left. split; [apply set_err_same | left; reflexivity].
     + inversion H; subst X'; clear H. intro b; simpl. destruct (Nat.eq_dec b a) as [->|NE].
       * rewrite set_err_same. repeat split; try discriminate; auto.
       * rewrite set_err_other by exact NE. destruct (J b) as [J1 [J2 J3]].
         repeat split; intros; try (apply J1; assumption); try (apply J2; assumption); try (right; apply J1; assumption);
           try (right; apply J2; assumption).
         apply J3; auto. match goal with F : _ \/ _ |- _ => destruct F as [F|F]; [congruence|exact F] end.
-  - destruct (x_err X a) as [ap|] eqn:EE; [|discriminate]. rewrite CAS, flip_error_raises in H.
+  - simpl in H. destruct (x_err X a) as [ap|] eqn:EE; [|discriminate]. rewrite CAS, flip_error_raises in H.
     destruct (step c (xw X) (ev a EAbort)) as [w'|] eqn:St; [|discriminate].
     inversion H; subst X'; clear H. destruct (step_abort _ _ _ _ St) as [A1 [A2 Oth]]. intro b; simpl.
     destruct (Nat.eq_dec b a) as [->|NE].
@@ -159,17 +287,57 @@ Proof.
       * right. apply A2. apply J2. exact EE.
       * left. apply A1. apply J1. exact EE.
     + rewrite set_err_other by exact NE. rewrite (Oth b NE). apply J.
+  - simpl in H. destruct (x_err X a) eqn:EE; [discriminate|]. destruct (x_rb X a); [discriminate|].
+    destruct (a_pc (w_actors (xw X) a)) eqn:PC; try discriminate.
+    match type of H with (if ?b then _ else _) = _ => destruct b; [|discriminate] end.
+    destruct (step c (xw X) (ev a (EFlip true))) as [w'|] eqn:St; [|discriminate].
+    inversion H; subst X'; clear H. eapply XJ_after_flip; eauto.
+  - destruct (xstep_readback _ _ _ _ _ K H) as [E1 [E2 [E3 _]]]. intro b. rewrite E1, E2, E3. apply J.
 Qed.
 
 Lemma xinit_XJ w : XJ (xinit w).
 Proof. intro a. simpl. repeat split; try discriminate. intros _ []. Qed.
 
-Lemma xrun_XJ c atomic X xs : cas c = true -> XJ X -> XJ (xrun c atomic X xs).
+(* nobody's applied write is ever reported to them as a conflict *)
+Lemma xstep_mis c atomic X x X' : XK X -> xstep_p true c atomic X x = Some X' -> x_misreported X = [] -> x_misreported X' = [].
 Proof.
-  intro CAS. revert X. induction xs as [|x xs IH]; intros X J; [exact J|].
-  rewrite xrun_cons. unfold xstep_skip. destruct (xstep c atomic X x) as [X'|] eqn:St; [|apply IH; exact J].
-  apply IH. eapply xstep_XJ; eauto.
+  intros K H M. destruct x as [e|a applied|a|a|a].
+  - simpl in H. destruct (x_err X (e_actor e)); [discriminate|]. destruct (x_rb X (e_actor e)); [discriminate|].
+    destruct (negb (is_flip_true (e_kind e)) || may_land true X); [|discriminate].
+    destruct (step c (xw X) e); [|discriminate]. inversion H; subst X'. exact M.
+  - simpl in H. destruct (x_err X a); [discriminate|]. destruct (x_rb X a); [discriminate|].
+    destruct (a_pc (w_actors (xw X) a)); try discriminate. destruct applied.
+    + match type of H with (if ?b then _ else _) = _ => destruct b; [discriminate|] end.
+      destruct (step c (xw X) (ev a (EFlip true))); [|discriminate].
+      inversion H; subst X'. exact M.
+    + inversion H; subst X'. exact M.
+  - simpl in H. destruct (x_err X a); [|discriminate].
+    match type of H with match ?w1 with _ => _ end = _ => destruct w1; [|discriminate] end. inversion H; subst X'. exact M.
+  - simpl in H. destruct (x_err X a); [discriminate|]. destruct (x_rb X a); [discriminate|].
+    destruct (a_pc (w_actors (xw X) a)); try discriminate.
+    match type of H with (if ?b then _ else _) = _ => destruct b; [|discriminate] end.
+    destruct (step c (xw X) (ev a (EFlip true))); [|discriminate]. inversion H; subst X'. exact M.
+  - destruct (xstep_readback _ _ _ _ _ K H) as [_ [_ [_ [E4 _]]]]. rewrite E4. exact M.
 Qed.
+
+Record XAll (c : cfg) (X : xworld) : Prop := {
+  XA_k : XK X; XA_j : XJ X; XA_inv : Inv c (xw X); XA_repl : repl_ok (xw X); XA_mis : x_misreported X = [] }.
+
+Lemma xstep_all c atomic X x X' : cas c = true -> XAll c X -> xstep_p true c atomic X x = Some X' -> XAll c X'.
+Proof.
+  intros CAS [K J I R M] H. destruct (xstep_inv _ _ _ _ _ CAS K I R H) as [I' R'].
+  constructor; auto; [eapply xstep_XK | eapply xstep_XJ | eapply xstep_mis]; eauto.
+Qed.
+
+Lemma xrun_all c atomic X xs : cas c = true -> XAll c X -> XAll c (xrun_p true c atomic X xs).
+Proof.
+  intro CAS. revert X. induction xs as [|x xs IH]; intros X A; [exact A|].
+  rewrite xrun_p_cons. unfold xstep_skip_p. destruct (xstep_p true c atomic X x) as [X'|] eqn:St; [|apply IH; exact A].
+  apply IH. eapply xstep_all; eauto.
+Qed.
+
+Lemma xinit_all c m0 kind mr : XAll c (xinit (init_world m0 kind mr)).
+Proof. constructor; [apply xinit_XK | apply xinit_XJ | apply init_inv | constructor | reflexivity]. Qed.
 
 Lemma XJ_not_success X a : XJ X -> In a (x_failed X) -> a_pc (w_actors (xw X) a) <> PDone Success.
 Proof.
@@ -183,11 +351,14 @@ Qed.
 Section XReachable.
   Variables (c : cfg) (atomic : bool) (m0 : meta) (kind : aid -> curk) (mr : aid -> nat) (xs : list xevent).
   Hypothesis CAS : cas c = true.
-  Let X := xrun c atomic (xinit (init_world m0 kind mr)) xs.
+  Let X := xrun_p true c atomic (xinit (init_world m0 kind mr)) xs.
   Let w := xw X.
 
+  Lemma xreach_all : XAll c X.
+  Proof. apply xrun_all; [exact CAS | apply xinit_all]. Qed.
+
   Lemma xreach_inv : Inv c w /\ repl_ok w.
-  Proof. apply xrun_inv; [exact CAS | apply init_inv | constructor]. Qed.
+  Proof. destruct xreach_all as [_ _ I R _]. split; assumption. Qed.
 
   Lemma xreach_repl : Forall (fun p => fst p = snd p) (w_repl w).
   Proof. destruct xreach_inv as [_ R]. exact R. Qed.
@@ -195,7 +366,7 @@ Section XReachable.
   Lemma xreach_serializable : m_ops (file w (w_ptr w)) = m_ops m0 ++ map snd (w_hist w).
   Proof.
     destruct xreach_inv as [I _]. rewrite file_nthf, (I_ptr c w I), (chain_ops _ _ _ (I_chain c w I)).
-    unfold w, X. rewrite xrun_file0; [reflexivity | exact CAS | apply init_inv | constructor].
+    unfold w, X. rewrite xrun_file0; [reflexivity | exact CAS | apply xinit_XK | apply init_inv | constructor].
   Qed.
 
   Lemma xreach_once : NoDup (map snd (w_hist w)).
@@ -208,7 +379,7 @@ Section XReachable.
   Proof. destruct xreach_inv as [I _]. apply I. Qed.
 
   Lemma xreach_XJ : XJ X.
-  Proof. apply xrun_XJ; auto. apply xinit_XJ. Qed.
+  Proof. apply xreach_all. Qed.
 
   Lemma xreach_failed_not_acked a : In a (x_failed X) -> a_pc (w_actors w a) <> PDone Success.
   Proof. apply XJ_not_success. apply xreach_XJ. Qed.
@@ -233,7 +404,7 @@ Lemma failed_flip_reaction atomic last :
 Proof. split; [apply flip_error_raises | apply flip_refusal_retries]. Qed.
 
 Lemma faulted_no_lost_update c atomic m0 kind mr xs : cas c = true ->
-  let w := xw (xrun c atomic (xinit (init_world m0 kind mr)) xs) in
+  let w := xw (xrun_p true c atomic (xinit (init_world m0 kind mr)) xs) in
   Forall (fun p => fst p = snd p) (w_repl w)
   /\ m_ops (file w (w_ptr w)) = m_ops m0 ++ map snd (w_hist w)
   /\ NoDup (map snd (w_hist w))
@@ -246,7 +417,7 @@ Proof.
 Qed.
 
 Lemma failed_write_never_acknowledged c atomic m0 kind mr xs a : cas c = true ->
-  let X := xrun c atomic (xinit (init_world m0 kind mr)) xs in
+  let X := xrun_p true c atomic (xinit (init_world m0 kind mr)) xs in
   In a (x_failed X) ->
   a_pc (w_actors (xw X) a) <> PDone Success
   /\ (x_err X a = None ->
@@ -255,4 +426,61 @@ Lemma failed_write_never_acknowledged c atomic m0 kind mr xs a : cas c = true ->
 Proof.
   intros CAS X F. split; [apply xreach_failed_not_acked; assumption|].
   intro E. apply xreach_failed_outcome; assumption.
+Qed.
+
+(* An attempt is at / past its commit point exactly when the store applied its pointer write -- also when the store's answer
+   to the committer was a REFUSAL (the re-sent copy of an applied request): the pointer is read back, the committer is not
+   told "conflict" (x_misreported stays empty: nobody discards the file the pointer names, nobody commits twice), and
+   while the read-back is pending the committer sits at PFlipped.  `flipped` = PFlipped (lock not yet released), PDone Success,
+   or PDone AbortedPost (an error / interrupt reached the caller AFTER the write was applied: x_failed, EAbort, ECrash).
+   prompt = true: no pointer write lands between an applied-and-refused write and its read-back (the read-back compares
+   the pointer's content with the committer's own file name; a successor's name tells it nothing). *)
+Definition acked_iff_applied_for (prompt : bool) : Prop :=
+  forall c atomic m0 kind mr xs, cas c = true ->
+  let X := xrun_p prompt c atomic (xinit (init_world m0 kind mr)) xs in
+  (forall a, In a (map snd (w_hist (xw X))) <-> flipped (a_pc (w_actors (xw X) a)) = true)
+  /\ NoDup (map snd (w_hist (xw X)))
+  /\ x_misreported X = []
+  /\ (forall a, x_rb X a = true -> a_pc (w_actors (xw X) a) = PFlipped)
+  /\ (forall a, a_pc (w_actors (xw X) a) = PDone Success -> In a (map snd (w_hist (xw X))))
+  /\ (forall a, In a (map snd (w_hist (xw X))) -> ~ In a (x_failed X) ->
+        a_pc (w_actors (xw X) a) = PFlipped \/ a_pc (w_actors (xw X) a) = PDone Success \/ a_pc (w_actors (xw X) a) = PDone AbortedPost).
+
+Lemma acknowledged_iff_applied_prompt : acked_iff_applied_for true.
+Proof.
+  intros c atomic m0 kind mr xs CAS X. pose proof (xreach_all c atomic m0 kind mr xs CAS) as A. fold X in A.
+  assert (AK := fun a => xreach_acked c atomic m0 kind mr xs CAS a). fold X in AK.
+  split; [intro a; split; apply AK|]. split; [apply xreach_once; exact CAS|]. split; [apply A|].
+  split; [intros a RB; apply (XK_pending X a (XA_k c X A) RB)|]. split.
+  - intros a P. apply AK. rewrite P. reflexivity.
+  - intros a HI _. apply AK in HI. destruct (a_pc (w_actors (xw X) a)) as [| | | | | | | |[| | |]]; simpl in HI; try discriminate; auto.
+Qed.
+
+(* the witness against the unrestricted statement: both actors validated version 0 under a lock that excludes nobody; actor
+   0's write is applied and its re-sent copy refused; actor 1 is refused, retries, validates actor 0's version and commits
+   on top of it BEFORE actor 0 reads the pointer back: actor 0 sees actor 1's file name, is told "conflict" although the store
+   applied its write (x_misreported = [0]), releases and starts over *)
+Definition xev a k := XE {| e_actor := a; e_kind := k |}.
+Definition superseded_witness : list xevent :=
+  [ xev 0 (EBegin 0); xev 1 (EBegin 0); xev 0 (ELockTry true); xev 1 (ELockTry true);
+    xev 0 (EValidate 0 true); xev 1 (EValidate 0 true); xev 0 (EMetaW 100); xev 1 (EMetaW 100);
+    xev 0 (EFence true); xev 1 (EFence true);
+    XFlipResent 0; xev 1 (EFlip false); xev 1 ERelease;
+    xev 1 (EBegin 1); xev 1 (ELockTry true); xev 1 (EValidate 1 true); xev 1 (EMetaW 100); xev 1 (EFence true);
+    xev 1 (EFlip true); xev 1 ERelease;
+    XReadBack 0; xev 0 ERelease ]%nat.
+
+Lemma acknowledged_iff_applied_full_refuted : ~ (forall prompt, acked_iff_applied_for prompt).
+Proof.
+  intro F.
+  specialize (F false {| cas := true; lockkind := GrantAll |} false {| m_ops := []; m_cur := 1; m_lu := 100%Z |} (fun _ => KFresh) (fun _ => 50%nat)
+                superseded_witness eq_refl).
+  cbv zeta in F. destruct F as [_ [_ [M _]]]. vm_compute in M. discriminate.
+Qed.
+
+(* the restriction does not touch schedules without refused-although-applied writes: where no read-back is pending the two
+   machines take the same step *)
+Lemma prompt_irrelevant_without_pending c atomic X x : x_npending X = 0%nat -> xstep_p true c atomic X x = xstep_p false c atomic X x.
+Proof.
+  intro N. destruct x as [e|a applied|a|a|a]; simpl; unfold may_land; rewrite N; simpl; rewrite ?orb_true_r; reflexivity.
 Qed.
